@@ -4,7 +4,8 @@ S=$1; shift
 cd /verif
 git -C /repo diff --quiet || { echo "/repo is dirty"; exit 2; }
 git -C /repo apply /verif/seeded/$S/patch.diff || exit 2
-trap 'git -C /repo checkout -- .' EXIT
+rm -rf /tmp/evidence_save && cp -r /verif/evidence /tmp/evidence_save
+trap 'git -C /repo checkout -- .; rm -rf /verif/evidence; mv /tmp/evidence_save /verif/evidence' EXIT
 for P in "$@"; do
   ./check $P > /tmp/run_seed_$S_$P.log 2>&1; RC=$?
   echo "seed=$S check=$P exit=$RC  $(grep -c '^VIOLATION' /tmp/run_seed_$S_$P.log) violation line(s); $(grep -m1 '^VIOLATION' /tmp/run_seed_$S_$P.log)"
